@@ -7,7 +7,10 @@ import (
 	"math/rand/v2"
 	"strconv"
 	"strings"
+	"sync"
 	"unicode"
+
+	"verif/internal/fw"
 )
 
 // ---- code point pools ----
@@ -266,9 +269,15 @@ func randFloat(r *rand.Rand) *O {
 
 // ---- text ----
 
-const symSafePunct = "-*+<>=/_$%^~.@:"
-
 func randPlainName(r *rand.Rand) string {
+	for {
+		if s := randPlainName1(r); !numericLooking(s) {
+			return s
+		}
+	}
+}
+
+func randPlainName1(r *rand.Rand) string {
 	n := 1 + r.IntN(8)
 	var b strings.Builder
 	b.WriteByte(byte('a' + r.IntN(26)))
@@ -277,7 +286,11 @@ func randPlainName(r *rand.Rand) string {
 		case 0:
 			b.WriteByte(byte('0' + r.IntN(10)))
 		case 1:
-			b.WriteByte("-*+<>=/_$%^~."[r.IntN(13)])
+			punct := cleanNamePunct
+			if avoidInit(); !avoidQuestionSym {
+				punct += "?"
+			}
+			b.WriteByte(punct[r.IntN(len(punct))])
 		case 2:
 			b.WriteByte(byte('A' + r.IntN(26)))
 		default:
@@ -320,18 +333,13 @@ func randAnyName(r *rand.Rand) string {
 
 type genOpts struct {
 	clean    bool // avoid the constructs listed as known findings
-	numeric  bool // integers and ratios only (for *read-base* /= 10)
+	radix    bool // the object will be printed with *print-radix* t
+	escape   bool // the object will be printed with *print-readably* nil
 	maxDepth int
 	maxWidth int
 }
 
 func randLeaf(r *rand.Rand, g genOpts) *O {
-	if g.numeric {
-		if r.IntN(3) == 0 {
-			return randRatio(r)
-		}
-		return randInt(r)
-	}
 	for try := 0; ; try++ {
 		var o *O
 		switch r.IntN(16) {
@@ -349,7 +357,7 @@ func randLeaf(r *rand.Rand, g genOpts) *O {
 			if g.clean {
 				o = leaf("sym", randPlainName(r))
 			} else {
-				o = leaf("sym", randAnyName(r))
+				o = leaf("sym", strings.TrimLeft(randAnyName(r), ":"))
 			}
 		case 11, 12:
 			if g.clean {
@@ -364,24 +372,34 @@ func randLeaf(r *rand.Rand, g genOpts) *O {
 		default:
 			o = leaf("int", strconv.Itoa(r.IntN(21)-10))
 		}
-		if !g.clean || dirtyLeaf(o) == "" || 50 < try {
-			if g.clean && dirtyLeaf(o) != "" {
-				return leaf("int", "1")
-			}
+		if o.K == "sym" && (strings.EqualFold(o.V, "t") || strings.EqualFold(o.V, "nil")) {
+			continue // these names denote the objects t and nil, not symbols of their own
+		}
+		if !g.clean || dirtyLeaf(o, g) == "" {
 			return o
+		}
+		if 40 < try {
+			return leaf("int", "1")
+		}
+		if o.K == "str" && try%2 == 1 {
+			// keep the string, drop the code points on the avoid list
+			var keep []rune
+			for _, q := range o.V {
+				if !dirtyStringRune(q, g) {
+					keep = append(keep, q)
+				}
+			}
+			return leaf("str", string(keep))
 		}
 	}
 }
 
 func randObj(r *rand.Rand, g genOpts, depth int) *O {
+	avoidInit()
 	if g.maxDepth <= depth || (0 < depth && r.IntN(5) < 2+depth/2) {
 		return randLeaf(r, g)
 	}
-	kinds := 10
-	if g.numeric {
-		kinds = 8
-	}
-	switch k := r.IntN(kinds); {
+	switch k := r.IntN(10); {
 	case k < 5: // list
 		n := 1 + r.IntN(g.maxWidth)
 		o := &O{K: "list"}
@@ -390,19 +408,16 @@ func randObj(r *rand.Rand, g genOpts, depth int) *O {
 		}
 		if r.IntN(5) == 0 {
 			t := randLeaf(r, g)
-			for t.K == "nil" {
-				t = randLeaf(r, g)
+			if r.IntN(6) == 0 {
+				t = &O{K: "vec", E: []*O{randLeaf(r, g)}}
 			}
-			if !(g.clean && dirtyTail(t)) {
+			if t.K != "nil" {
 				o.T = t
 			}
 		}
 		return o
 	case k < 8: // vector
 		n := r.IntN(g.maxWidth + 1)
-		if g.clean && n == 0 && avoidEmptyVector {
-			n = 1
-		}
 		o := &O{K: "vec", E: []*O{}}
 		for i := 0; i < n; i++ {
 			o.E = append(o.E, randObj(r, g, depth+1))
@@ -410,8 +425,17 @@ func randObj(r *rand.Rand, g genOpts, depth int) *O {
 		return o
 	default: // array of rank 0, 2 or 3
 		rank := []int{2, 2, 3, 0}[r.IntN(4)]
-		if g.clean && rank == 0 && avoidRank0 {
+		if g.clean && rank == 0 {
 			rank = 2
+		}
+		if g.clean && g.radix && avoidArrayRadix {
+			// #nA is printed with the rank in *print-base* (known finding): vector instead
+			n := 1 + r.IntN(g.maxWidth)
+			o := &O{K: "vec", E: []*O{}}
+			for i := 0; i < n; i++ {
+				o.E = append(o.E, randObj(r, g, depth+1))
+			}
+			return o
 		}
 		o := &O{K: "arr", D: []int{}, E: []*O{}}
 		total := 1
@@ -424,59 +448,53 @@ func randObj(r *rand.Rand, g genOpts, depth int) *O {
 			total *= d
 		}
 		for i := 0; i < total; i++ {
-			e := randObj(r, g, depth+2)
-			if g.clean && avoidNilInArray && rank != 0 {
-				e = noNilRows(e)
-			}
-			o.E = append(o.E, e)
+			o.E = append(o.E, randObj(r, g, depth+2))
 		}
 		return o
 	}
 }
 
-func noNilRows(e *O) *O { return e }
-
 // ---- avoid set (constructs listed as open findings; see findings/C03.json) ----
 
+const cleanNamePunct = "-*+<>=_$%^~."
+
+// Three entries of the avoid set follow known_findings.json: once the finding
+// is no longer open the construct is generated in the clean stream as well.
 var (
-	avoidEmptyVector = false
-	avoidRank0       = true
-	avoidNilInArray  = false
+	avoidOnce        sync.Once
+	avoidRatioRadix  bool
+	avoidArrayRadix  bool
+	avoidQuestionSym bool
 )
 
-// dirtyLeaf names the known finding a leaf would run into ("" when clean).
-// The clean stream never generates such leaves; the dirty stream plants one
-// of them in an otherwise clean object.
-func dirtyLeaf(o *O) string {
+func avoidInit() {
+	avoidOnce.Do(func() {
+		avoidRatioRadix = fw.FindingOpen("C03", "obj=ratio cfg=radix ctx=top mode=any class=small fail=read-error:parse-error")
+		avoidArrayRadix = fw.FindingOpen("C03", "obj=struct cfg=radix ctx=as-is mode=any class=#2A(fixnum) fail=read-error:parse-error")
+		avoidQuestionSym = fw.FindingOpen("C03", "obj=sym cfg=any ctx=top mode=any class=constituent:U+003F fail=read-error:parse-error")
+	})
+}
+
+// dirtyLeaf names the known finding a leaf would run into under the kind of
+// configuration g describes ("" when clean). The clean stream never generates
+// such leaves; the dirty stream generates everything.
+func dirtyLeaf(o *O, g genOpts) string {
+	avoidInit()
 	switch o.K {
-	case "sym":
+	case "sym", "kw":
 		if o.V == "" {
-			return "sym-empty"
+			return o.K + "-empty"
 		}
-		if numericLooking(o.V) {
+		if o.K == "sym" && numericLooking(o.V) {
 			return "sym-numeric-looking"
 		}
 		for _, r := range o.V {
 			switch {
 			case 'a' <= r && r <= 'z', 'A' <= r && r <= 'Z', '0' <= r && r <= '9':
-			case r < 0x80 && strings.ContainsRune(symSafePunct, r):
+			case r < 0x80 && strings.ContainsRune(cleanNamePunct, r):
+			case r == '?' && !avoidQuestionSym:
 			default:
-				return "sym-special-char"
-			}
-		}
-		if strings.Contains(o.V, ":") || strings.HasPrefix(o.V, "@") {
-			return "sym-special-char"
-		}
-	case "kw":
-		if o.V == "" {
-			return "kw-special"
-		}
-		for _, r := range o.V {
-			switch {
-			case 'a' <= r && r <= 'z', 'A' <= r && r <= 'Z', '0' <= r && r <= '9':
-			case r < 0x80 && strings.ContainsRune("-*+<>=/_$%^~.", r):
-			default:
-				return "kw-special"
+				return o.K + "-special-char"
 			}
 		}
 	case "chr":
@@ -486,29 +504,77 @@ func dirtyLeaf(o *O) string {
 		}
 	case "str":
 		for _, r := range o.V {
-			if dirtyStringRune(r) {
-				return "str-special"
+			if dirtyStringRune(r, g) {
+				return "str-raw-in-escape-mode"
 			}
 		}
+	case "ratio":
+		if g.radix && avoidRatioRadix {
+			return "ratio-with-radix"
+		}
+	case "sf":
+		if g.escape {
+			return "float-in-escape-mode"
+		}
+	case "df":
+		if g.escape && o.leafClass() != "fraction" {
+			return "float-in-escape-mode"
+		}
 	case "lf":
-		return dirtyLong(o)
-	case "sf", "df":
-		return ""
+		if g.escape {
+			return "float-in-escape-mode"
+		}
+		if !cleanLong(parseLong(o.V)) {
+			return "long-float-precision"
+		}
 	}
 	return ""
 }
 
-func dirtyTail(t *O) bool { return false }
-
+// dirtyChar: characters the reader does not accept after #\ (known finding).
 func dirtyChar(r rune) bool {
-	return false
+	return r == 0 || (r < 0x80 && strings.ContainsRune("!\"$%&'();?[\\]`{}", r))
 }
 
-func dirtyStringRune(r rune) bool {
-	return false
+// dirtyStringRune: with *print-readably* nil strings are written raw (known finding).
+func dirtyStringRune(r rune, g genOpts) bool {
+	if !g.escape {
+		return false
+	}
+	return r == '"' || r == '\\' || (r < 0x20 && r != '\t' && r != '\n' && r != '\r')
 }
 
-func dirtyLong(o *O) string { return "" }
+// cleanLong tells whether a long float survives the known finding that the
+// reader derives the precision of a long float from the number of digits
+// written: the shortest decimal text must denote the value exactly and the
+// value must fit the precision the reader will pick (3.32 bits per mantissa
+// character).
+func cleanLong(f *big.Float) bool {
+	if f.Sign() == 0 {
+		return !f.Signbit()
+	}
+	text := f.Text('e', -1)
+	mant := text[:strings.IndexByte(text, 'e')]
+	q, ok := new(big.Rat).SetString(text)
+	if !ok {
+		return false
+	}
+	exact, _ := f.Rat(nil)
+	if q.Cmp(exact) != 0 {
+		return false
+	}
+	cnt := len(mant)
+	if mant[0] == '-' {
+		cnt--
+	}
+	prec := uint(3.3 * float64(cnt))
+	if prec < 1 {
+		return false
+	}
+	g := new(big.Float).SetPrec(prec).SetMode(big.ToNearestAway)
+	g.SetRat(exact)
+	return g.Cmp(f) == 0
+}
 
 // ---- deterministic probe catalogue ----
 
@@ -646,12 +712,16 @@ func initCatalogue() {
 		}
 		s := string(c)
 		add(fewCtx, leaf("sym", "a"+s+"b"))
+		if c == ':' {
+			add([]int{2}, leaf("sym", "a"+s))
+			continue // a leading colon makes a keyword
+		}
 		add([]int{2}, leaf("sym", s), leaf("sym", s+"a"), leaf("sym", "a"+s))
 	}
 	for _, c := range probeRunes {
-		add([]int{2}, leaf("sym", "a"+string(c)+"b"))
+		add([]int{2}, leaf("sym", "a"+string(c)+"b"), leaf("kw", "a"+string(c)+"b"))
 	}
-	for _, s := range []string{"1", "-1", "+1", "1.", "1.5", "1e5", "1d0", "1/2", "1f0", "1l0", "1s0", "-1.5e-3", ".", "..", "...", "t", "nil", "T", "NIL", "Nil",
+	for _, s := range []string{"1", "-1", "+1", "1.", "1.5", "1e5", "1d0", "1/2", "1f0", "1l0", "1s0", "-1.5e-3", ".", "..", "...",
 		"@2024-01-01", "@2024-01-01T10:00:00Z", "@x", "+", "-", "1+", "1-", "-a", "+a", "a.b", ".a", "a.", "1a", "a1", "12ab", "e1", "ff", "zz", "1e", "1/", "/2", "1/0", "0x10",
 		"quote", "function", "lambda", "a:b", "a::b", "cl:car", "#a", "a#", "a'b", "&rest", "*print-base*", "1_000", "١", "1.e5", "+.5", ".5", "-.5e1"} {
 		add(fewCtx, leaf("sym", s))
@@ -703,6 +773,9 @@ func initCatalogue() {
 		&O{K: "arr", D: []int{0, 2}, E: []*O{}},
 		&O{K: "arr", D: []int{1, 0, 2}, E: []*O{}},
 		&O{K: "arr", D: []int{2, 2}, E: []*O{{K: "arr", D: []int{1, 1}, E: []*O{i(1)}}, i(2), i(3), e("vec")}},
+		e("list", s("a"), s("."), s("b")),
+		e("list", s("a"), s("b"), s("."), s("c")),
+		e("vec", s("a"), s("."), s("b")),
 		e("list", s("quote"), s("a")),
 		e("list", s("function"), s("car")),
 		e("list", s("lambda"), e("list", s("x")), s("x")),
